@@ -177,6 +177,13 @@ def run(chk):
 
     run_batch_size_check(chk)
 
+    # R7 solve draws every batch under jit (int32 indices) whereas the reference loop of the property draws eagerly (Python
+    # integers): the two agree only if the generators' first draw cannot leave int32
+    chk.rule("C07.R7", "the end index compared at the first draw of every generator kind (constructed state) forces a reshuffle "
+                       "and stays within int32, so that the jitted draws of solve equal eager draws", floor=10)
+    from .C09 import run_first_draw
+    run_first_draw(chk, chk.repo, "C07.R7")
+
 
 def run_batch_size_check(chk):
     """R6: solve() accepts an auxiliary (parameter / observation) generator exactly when its batch size is the number of rows
